@@ -28,7 +28,7 @@ MIN_EVALUATIONS = {"quick": 2000, "thorough": 50000}
 
 def plan(tier, seed):
     if tier == "quick":
-        return [dict(seed=seed, shard=i, n=230, depth=3) for i in range(16)]
+        return [dict(seed=seed, shard=i, n=700, depth=3) for i in range(16)]
     return [dict(seed=seed, shard=i, n=2400, depth=4) for i in range(64)]
 
 
